@@ -258,3 +258,85 @@ CONTRACTS[U + 'stabilizer_expect'] = dict(
                'bits(ga, 2 * N)'],
                hints_head=[('lemma?', 'ipowsum_ext', ['ga', 'OrdGRow(DestabSel(gs_stb, gs_obs[k], r, N), gs_stb, j - N)', 'gs_stb[j - N]', 'N'])])},
 )
+
+# ------------------------------------------------------------------ symplectic-form lemmas (C05 / C06 / C14)
+LEMMAS['acq_bilinear'] = dict(
+    doc='the symplectic form is bilinear mod 2 in either argument',
+    params=[('a', 'int1'), ('b', 'int1'), ('c', 'int1'), ('n', 'int')],
+    requires=['bits(a, 2 * n)', 'bits(b, 2 * n)', 'bits(c, 2 * n)'],
+    ensures=['(AcqSum(Xor(a, b), c, n) - AcqSum(a, c, n) - AcqSum(b, c, n)) % 2 == 0',
+             '(AcqSum(c, Xor(a, b), n) - AcqSum(c, a, n) - AcqSum(c, b, n)) % 2 == 0'],
+    induction='n',
+)
+LEMMAS['acq_antisym'] = dict(
+    doc='AcqSum(a,b,n) = -AcqSum(b,a,n); in particular equal parity',
+    params=[('a', 'int1'), ('b', 'int1'), ('n', 'int')],
+    requires=[],
+    ensures=['AcqSum(a, b, n) + AcqSum(b, a, n) == 0', 'AcqSum(a, a, n) == 0'],
+    induction='n',
+)
+
+# ------------------------------------------------------------------ tableau predicates
+PREDS['gram'] = (('G', 'N'),
+                 'forall(a, 0, 2 * N, forall(b, 0, 2 * N, AcqSum(G[a], G[b], N) % 2 == b2i(b == a + N or a == b + N)))')
+PREDS['tab'] = (('G', 'N'), ['rows(G) == 2 * N', 'cols(G) == 2 * N', 'bits2(G)', 'gram(G, N)'])
+# scan order of the measurement kernels: active stabilizers [r,N), standby stabilizers [0,r), then rows N..2N-1
+PREDS['scan'] = (('t', 'r', 'N'), 't + r if t < N - r else (t - (N - r) if t < N else t)')
+PREDS['iscan'] = (('j', 'r', 'N'), 'j - r if (r <= j and j < N) else (j + (N - r) if j < r else j)')
+PREDS['anti'] = (('g', 'obs', 'N'), 'AcqSum(g, obs, N) % 2 == 1')
+
+_G0 = "at('loop1.pre', gs_stb)"
+_obs = 'gs_obs[k]'
+_proj_inner = [
+    'rows(gs_stb) == 2 * N', 'cols(gs_stb) == 2 * N', 'cols(gs_obs) == 2 * N', '0 <= k < L', '0 <= r <= N', 'bits2(gs_stb)',
+    # pivot bookkeeping (positions are taken in scan order: iscan(i) is the time at which row i is visited)
+    'implies(not update, p == 0 and not extend)',
+    'implies(not update, forall(i, 0, N + r, implies(iscan(i, r, N) < jj, not anti(%s[i], %s, N))))' % (_G0, _obs),
+    'implies(update, 0 <= p < N + r and iscan(p, r, N) < jj and anti(%s[p], %s, N))' % (_G0, _obs),
+    'implies(update, forall(i, 0, N + r, implies(iscan(i, r, N) < iscan(p, r, N), not anti(%s[i], %s, N))))' % (_G0, _obs),
+    'implies(update, iff(extend, not (r <= p and p < N)))',
+    # rows: visited after the pivot and anticommuting -> multiplied by the pivot row; everything else untouched
+    'forall(i, 0, 2 * N, '
+    'same(gs_stb[i], Xor(%s[i], %s[p])) '
+    'if (iscan(i, r, N) < jj and update and iscan(i, r, N) > iscan(p, r, N) and anti(%s[i], %s, N)) '
+    'else same(gs_stb[i], %s[i]))' % (_G0, _G0, _G0, _obs, _G0),
+]
+_gram_hints = [
+    ('forall_lemma', [('i', '0', '2 * N'), ('l', '0', '2 * N')], 'acq_bilinear', ['%s[i]' % _G0, '%s[p0]' % _G0, '%s[l]' % _G0, 'N']),
+    ('forall_lemma', [('i', '0', '2 * N')], 'acq_bilinear', ['%s[i]' % _G0, '%s[p0]' % _G0, _obs, 'N']),
+    ('forall_lemma', [('i', '0', '2 * N'), ('l', '0', '2 * N')], 'acq_bilinear', ['%s[i]' % _G0, '%s[p0]' % _G0, 'Xor(%s[l], %s[p0])' % (_G0, _G0), 'N']),
+    ('forall_lemma', [('i', '0', '2 * N'), ('l', '0', '2 * N')], 'acq_antisym', ['%s[i]' % _G0, '%s[l]' % _G0, 'N']),
+    ('forall_lemma', [('i', '0', '2 * N')], 'acq_antisym', ['%s[i]' % _G0, _obs, 'N']),
+    ('lemma', 'acq_antisym', [_obs, _obs, 'N']),
+]
+def _subst_p(hints, name):
+    out = []
+    for h in hints:
+        out.append(tuple(x.replace('[p0]', '[%s]' % name) if isinstance(x, str) else
+                         ([y.replace('[p0]', '[%s]' % name) for y in x] if isinstance(x, list) and x and isinstance(x[0], str) else x)
+                         for x in h))
+    return out
+
+
+CONTRACTS[U + 'stabilizer_project'] = dict(
+    params=[('gs_stb', 'int2'), ('gs_obs', 'int2'), ('r', 'int')],
+    requires=['cols(gs_obs) % 2 == 0', 'tab(gs_stb, cols(gs_obs) // 2)', '0 <= r <= cols(gs_obs) // 2', 'bits2(gs_obs)'],
+    ensures=['tab(gs_stb, cols(gs_obs) // 2)', '0 <= result[1] <= r'],
+    modifies=['gs_stb'], returns=('=gs_stb', 'int'),
+    loops={0: dict(var='k', invariant=['rows(gs_stb) == 2 * N', 'cols(gs_stb) == 2 * N', 'bits2(gs_stb)', 'gram(gs_stb, N)',
+                                       '0 <= r <= N', 'cols(gs_obs) == 2 * N', 'r <= old(r)'],
+                   # the swaps after a rank reduction only permute partner pairs: proved from the Gram structure before
+                   # the swaps (ghost assertion at `if extend:`) and the index arithmetic, nothing else
+                   hints_end=[
+                       # double swap (p,r) (q,s): the final tableau is the one before the swaps read through the
+                       # permutation (p r)(q s), which maps partner pairs to partner pairs
+                       ('assert_from', 'gram(gs_stb, N)',
+                        ["gram(at('if5.before', gs_stb), N)", 'q == (p + N if p < N else p - N)', 's == r + N', '0 <= r < N', 'p != r', 'q != r',
+                         "forall(i, 0, 2 * N, same(gs_stb[i], at('if5.before', gs_stb)[r if i == p else (p if i == r else (s if i == q else (q if i == s else i)))]))"],
+                        ['p < N', 'p >= N'], 'optional'),
+                       ('assert_from', 'gram(gs_stb, N)', ["gram(at('if5.before', gs_stb), N)"], ['p < N', 'p >= N'])]),
+           1: dict(var='jj', invariant=_proj_inner)},
+    # ghost code before `if extend:` (the 6th if of the function): after the pivot replacement the Gram structure holds
+    # again (bilinearity instances for the rows that were multiplied by the pivot); the swaps then only permute pairs
+    hints={'if5.before': [('assert_using', 'gram(gs_stb, N)', _subst_p(_gram_hints, 'p'))]},
+)
